@@ -199,6 +199,10 @@ def run_case(case):
                     # not a refusal: the library tripped over its own state while appending a compatible frame
                     return viol("append_crashed|%s|%s" % (scheme, exc_sig(e)), "append %d: %s" % (k, exc_detail(e)), labels=labels)
                 except Exception as e:
+                    if scheme != "drill" and "Column names of new data" in str(e):
+                        # the batch has exactly the dataset's columns (and index): refusing it for its column names is wrong
+                        # (drill datasets expose dirN instead of the partition columns and do refuse: a documented limit)
+                        return viol("append_refused_compatible|%s|%s" % (scheme, ao["via"]), "append %d: %s" % (k, str(e)[:600]), labels=labels)
                     labels.append("append_raised")
                     return discard("append_raised:" + exc_sig(e), labels)
                 order.extend(rows_k)
